@@ -11,6 +11,8 @@ miss=0; n=0
 for d in seeded/${1:-}*/; do
   name=$(basename "$d")
   id=$(python3 -c "import json;print(json.load(open('$d/meta.json'))['caught_by_checks'][0])")
+  since=$(python3 -c "import json;print(json.load(open('$d/meta.json')).get('no_longer_a_defect_since',''))")
+  if [ -n "$since" ]; then echo "$name $id SKIPPED (no longer a defect since fix $since, see its meta.json)"; continue; fi
   WT=/tmp/seedreg-$$; OUT=/tmp/seedreg-out-$$; mkdir -p "$OUT"
   git -C /repo worktree add -q --detach "$WT" HEAD || exit 2
   if ! git -C "$WT" apply "$V/$d/patch.diff" 2>/dev/null; then
